@@ -101,7 +101,11 @@ static int vf_malloc_fails (void) {
 #define VF_CHECK(c, msg) VF_ASSERT_ ((c), msg, 0)
 #define VF_REC_BOUND() do { vf_bound_hit = 1; VF_ASSUME (0); } while (0)
 #define VF_POOL_EXHAUSTED(p) do { vf_bound_hit = 1; VF_ASSUME (0); } while (0)
+#ifdef VF_NATIVE
+#define VF_EVENT(t, a, b) printf ("EV %lu %lu\n", (unsigned long) (a), (unsigned long) (b))
+#else
 #define VF_EVENT(t, a, b) do { } while (0)
+#endif
 
 static void vf_wrote_ (void) { int i_; for (i_ = 0; i_ < VF_NT; i_++) { vf_dirty[i_] = 1; } }
 #define VF_WROTE() vf_wrote_ ()
